@@ -203,6 +203,61 @@ def adaptive_history(sym, tier):
     return r
 
 
+
+# ------------------------------------------------------------------ DistributedRateLimiter over a shared store
+def distributed(sym, tier):
+    """Two DistributedRateLimiter instances (global limit 2 per 1 s window) sharing one KVStore whose read and
+    write latency is 0 or 1 ms, 4 requests at symbolic whole milliseconds to either instance: every request
+    is forwarded or dropped exactly once and the forwarded ones really reach the downstream; no event is
+    dated before the clock; when requests do not overlap in time at most global_limit are forwarded per window."""
+    from happysimulator.components.datastore.kv_store import KVStore
+    from happysimulator.components.rate_limiter.distributed import DistributedRateLimiter
+    r = Result()
+    lat = [0.0, 0.001][sym.choice("store_latency", 2)]
+    got = []
+
+    class Down(Entity):
+        def handle_event(self, event):
+            got.append((event.event_type, self.now.nanoseconds))
+
+    down = Down("down")
+    store = KVStore("redis", read_latency=lat, write_latency=lat)
+    lims = [DistributedRateLimiter(name=f"lim{i}", downstream=down, backing_store=store, global_limit=2, window_size=1.0) for i in range(2)]
+    m = 4
+    t = 0
+    plan = []
+    for i in range(m):
+        t = t + [0, 1, 3, 400, 700][sym.choice(f"gap{i}", 5)]          # ms after the previous request
+        plan.append((t, sym.choice(f"instance{i}", 2)))
+    sim = Simulation(entities=[store, down] + lims)
+    mon = Monitor(sim, cap=60)
+    sim.schedule([mk_event(tm * 1_000_000, f"req{i}", lims[w]) for i, (tm, w) in enumerate(plan)] + [mk_event((t + 50) * 1_000_000, "keepalive", down)])
+    try:
+        sim.run()
+    except SpinDetected:
+        pass
+    mon.judge(r, "distributed_rate_limiter")
+    fwd = sum(l.stats.requests_forwarded for l in lims)
+    drp = sum(l.stats.requests_dropped for l in lims)
+    arrived = [x for x in got if x[0].startswith("forward::")]
+    if fwd + drp != m:
+        r.bad("every_request_forwarded_or_dropped_exactly_once", {"forwarded": fwd, "dropped": drp, "offered": m, "plan": plan})
+    if len(arrived) != fwd or len(set(x[0] for x in arrived)) != len(arrived):
+        r.bad("forwarded_requests_reach_the_downstream_once", {"counted_forwarded": fwd, "arrived": arrived, "plan": plan, "store_latency_s": lat})
+    separated = all(b[0] - a[0] >= 3 for a, b in zip(plan, plan[1:]))
+    if separated:
+        for w0 in range(0, t + 1000, 1000):
+            inwin = [tm for (tm, w) in plan if w0 <= tm < w0 + 1000]
+            if inwin and sum(1 for x in arrived if w0 * 1_000_000 <= x[1] - int(2 * lat * 1e9) < (w0 + 1000) * 1_000_000) > 2:
+                r.bad("at_most_global_limit_forwarded_per_window_when_requests_do_not_overlap", {"plan": plan, "arrived": arrived})
+    if drp:
+        r.wit.add("dropped")
+    if lat > 0 and fwd:
+        r.wit.add("forwarded_after_a_store_round_trip")
+    r.obs = {"plan": plan, "arrived": arrived}
+    return r
+
+
 def kernels_classify(clause, draws, obs):
     return None
 
@@ -311,10 +366,16 @@ HARNESSES = [
       bounds=lambda tier: {"history": "drain 0..4 at t=0; 2 x (feedback none/success/failure/timeout, optional time_until_available, idle gap from table); 0..2 acquires between; burst of 9 at one instant",
                            "gaps_ns": _ADV_NS, "configuration": "4/s in [1,8], step 2, factor 0.5, window 1 s"},
       outside=["other parameter values", "gaps off the table", "more than two rate changes"]),
+    H(name="c10_distributed", fn=distributed, shape="S", budget=lambda tier: 900.0 if tier == "quick" else 3000.0,
+      cubes=lambda tier: [{"store_latency": a, "gap0": 0, "gap1": b} for a in range(2) for b in range(5)],
+      require=lambda tier: ["dropped", "forwarded_after_a_store_round_trip"], classify=kernels_classify,
+      functions=["DistributedRateLimiter.handle_event/check_and_increment", "KVStore.get/put"],
+      bounds=lambda tier: {"instances": 2, "requests": 4, "gaps between requests (ms)": [0, 1, 3, 400, 700], "store latency": [0.0, 0.001], "global limit": "2 per 1 s window"},
+      outside=["the global bound under overlapping store round trips (read-then-write is not atomic by design)"]),
     H(name="c10_entity", fn=entity, shape="S", budget=lambda tier: 900.0 if tier == "quick" else 3000.0,
       cubes=lambda tier: [{"policy": a, "queue_capacity_minus_1": b} for a in range(3) for b in range(2)],
       require=lambda tier: ["queued", "dropped"], classify=entity_classify,
       functions=["RateLimitedEntity._handle_request/_handle_poll/_forward/_ensure_poll_scheduled"],
       bounds=lambda tier: {"requests": 3 if tier == "quick" else 4, "arrival instants": "table as above", "queue capacity": [1, 2], "policies": ["token", "leaky", "fixed"]},
-      outside=["DistributedRateLimiter (needs a backing store entity)", "Inductor", "NullRateLimiter (pass-through)"]),
+      outside=["Inductor", "NullRateLimiter (pass-through)"]),
 ]
